@@ -349,6 +349,14 @@ impl TaskState<'_> {
 
 impl Drop for TaskState<'_> {
     fn drop(&mut self) {
+        // This task may be destroyed while it's sleeping (e.g. it was
+        // cancelled while waiting), and destructors run below may wake this
+        // task's own waker. Leave the "sleeping" state so such a wakeup doesn't
+        // try to signal the inter-task stream whose read is cancelled here.
+        self.shared
+            .sleep_state
+            .store(SLEEP_STATE_WOKEN, Ordering::Relaxed);
+
         // If there's an active read of the inter-task stream, go ahead and
         // cancel it, since we're about to drop the stream anyway.
         self.cancel_inter_task_stream_read();
